@@ -56,6 +56,9 @@ type c16Case struct {
 	HoldMonitor bool
 	// ReadChunk: the accepting side reads the delivered connection with buffers of this many bytes (0 = large)
 	ReadChunk int
+	// LazyRead: the accepting side takes connections but reads them only at the very end, after every other
+	// connection of the history has gone through the multiplexer
+	LazyRead bool
 }
 
 func prefixOf(i, n int) string {
@@ -128,6 +131,34 @@ func runC16(c c16Case) (r pbt.Result) {
 		}
 		return "route:" + prefixOf(i, c.PrefixLen)
 	}
+	type heldConn struct {
+		name string
+		conn net.Conn
+	}
+	var unread []heldConn
+	readConn := func(name string, conn net.Conn) {
+		var data []byte
+		if c.ReadChunk > 0 {
+			buf := make([]byte, c.ReadChunk)
+			for {
+				n, err := conn.Read(buf)
+				data = append(data, buf[:n]...)
+				if err != nil || len(data) > 1<<14 {
+					break // (no client sends that much: a connection that keeps producing bytes is cut off here)
+				}
+			}
+		} else {
+			data, _ = io.ReadAll(conn)
+		}
+		_ = conn.Close()
+		idx := -1
+		if len(data) > 0 {
+			idx = int(data[len(data)-1])
+		}
+		mu.Lock()
+		deliveries[idx] = append(deliveries[idx], delivery{name, data})
+		mu.Unlock()
+	}
 	startAccept := func(name string) {
 		if accepting[name] || listeners[name] == nil {
 			return
@@ -143,27 +174,13 @@ func runC16(c c16Case) (r pbt.Result) {
 					mu.Unlock()
 					return
 				}
-				var data []byte
-				if c.ReadChunk > 0 {
-					buf := make([]byte, c.ReadChunk)
-					for {
-						n, err := conn.Read(buf)
-						data = append(data, buf[:n]...)
-						if err != nil || len(data) > 1<<14 {
-							break // (no client sends that much: a connection that keeps producing bytes is cut off here)
-						}
-					}
-				} else {
-					data, _ = io.ReadAll(conn)
+				if c.LazyRead {
+					mu.Lock()
+					unread = append(unread, heldConn{name, conn})
+					mu.Unlock()
+					continue
 				}
-				_ = conn.Close()
-				idx := -1
-				if len(data) > 0 {
-					idx = int(data[len(data)-1])
-				}
-				mu.Lock()
-				deliveries[idx] = append(deliveries[idx], delivery{name, data})
-				mu.Unlock()
+				readConn(name, conn)
 			}
 		}()
 	}
@@ -351,6 +368,12 @@ func runC16(c c16Case) (r pbt.Result) {
 	}
 	sim.WaitQuiescent()
 	mu.Lock()
+	late := append([]heldConn(nil), unread...)
+	mu.Unlock()
+	for _, h := range late {
+		readConn(h.name, h.conn)
+	}
+	mu.Lock()
 	defer mu.Unlock()
 	for name := range listeners {
 		if !acceptEnded[name] {
@@ -428,6 +451,9 @@ func runC16(c c16Case) (r pbt.Result) {
 	if c.ReadChunk > 0 {
 		r.Label("small_reads_on_the_accepting_side")
 	}
+	if c.LazyRead {
+		r.Label("connections_read_only_at_the_end")
+	}
 	if c.HoldMonitor {
 		r.Label("late_unregistration")
 	}
@@ -466,6 +492,7 @@ func genC16(t *rapid.T) c16Case {
 	}), 3, 14).Draw(t, "events")
 	c.HoldMonitor = rapid.IntRange(0, 2).Draw(t, "holdmonitor") == 0
 	c.ReadChunk = rapid.SampledFrom([]int{0, 0, 1, 2, 3, 5}).Draw(t, "readchunk")
+	c.LazyRead = rapid.IntRange(0, 3).Draw(t, "lazyread") == 0
 	return c
 }
 
